@@ -6,7 +6,9 @@ U == << El("i1a", "int", 1, "n1", NoKey), El("i1b", "int", 1, "n1", NoKey), El("
         El("m1", "map", 0, "m1", K("int", 1)), El("m2", "map", 0, "m2", K("int", 1)), El("m3", "map", 0, "m3", K("int", 2)),
         El("ms", "map", 0, "ms", K("str", 1)), El("mx", "map", 0, "mx", NoKey), El("mn", "map", 0, "mn", K("none", 0)),
         ArrEl("ar", "ar", <<Sc("int", 1)>>), ArrEl("ax", "ax", <<Sc("int", 1), Sc("str", 1)>>), ArrEl("a13", "a13", <<Sc("int", 1), Sc("int", 3)>>),
-        ArrEl("a2", "a2", <<Sc("int", 2)>>), El("m0", "map", 0, "m0", NoKey), El("mxz", "map", 0, "mxz", NoKey) >>
+        ArrEl("a2", "a2", <<Sc("int", 2)>>), El("m0", "map", 0, "m0", NoKey), El("mxz", "map", 0, "mxz", NoKey),
+        \* arrays with a map member (no order on maps): aq2 extends aq -- different data, never to be merged by `unique`
+        ArrEl("aq", "aq", <<Sc("map", 1)>>), ArrEl("aq2", "aq2", <<Sc("map", 1), Sc("int", 2)>>) >>
 GK == << <<"int", 1>>, <<"int", 2>>, <<"str", 1>> >>          \* the group keys that can occur in U
 Obs == IF IOEnv.OBS = "" THEN <<>> ELSE ndJsonDeserialize(IOEnv.OBS)
 VARIABLES mode, xs, o, done
